@@ -151,6 +151,9 @@ func (run *checkRun) report(obres []*ObResult, undecided []string, wall float64)
 		lines = append(lines, fmt.Sprintf("UNDECIDED property=%s reason=%s", id, u))
 		exit = max(exit, 2)
 	}
+	if violations > 0 {
+		exit = 1 // a violation is reported as such even when other obligations stayed undecided
+	}
 	for _, l := range lines {
 		fmt.Println(l)
 	}
